@@ -270,6 +270,10 @@ func main() {
 						a.Reached += st.Reached
 						a.Discharged += st.Discharged
 						a.Queries += st.Queries
+						a.Ms += st.Ms
+						if st.MaxMs > a.MaxMs {
+							a.MaxMs = st.MaxMs
+						}
 					}
 					if rec.Outcome == OutOK || rec.Outcome == OutViolation {
 						for c := range ex.covers {
